@@ -418,3 +418,111 @@ def c13_radau_rms(tier="quick", seed=0):
     return _result("c13_radau_rms", q, t0, failed,
                    {"functions": ["RADAU::solve: the statements normalising `err` (AST slices)"], "bounds": f"{len(norms)} norms; copy counts 1, 2, 4, 16; exact arithmetic"},
                    replayed=True if failed else None, replay_src="(identity over loop-free source statements)", replay_log="; ".join(failed))
+
+
+# ============================================================================== C04: NaN / inf error norms in Radau's step-size controller (bit-precise slice)
+def _find_stmt_list_with_if(node, pred, out):
+    """(statement list, index) of the `if` statement whose condition satisfies pred."""
+    if isinstance(node, list):
+        for i, st in enumerate(node):
+            if isinstance(st, tuple):
+                cand = st if (st and st[0] == "if") else (st[1] if len(st) > 1 and isinstance(st[1], tuple) and st[1] and st[1][0] == "if" else None)
+                if cand is not None and pred(cand[1]):
+                    out.append((node, i, cand))
+        for st in node:
+            _find_stmt_list_with_if(st, pred, out)
+    elif isinstance(node, tuple):
+        for ch in node:
+            _find_stmt_list_with_if(ch, pred, out)
+
+
+def c04_radau_controller_nan(tier="quick", seed=0):
+    """The rejection branch of RADAU::solve (the three controller statements fac / quot / hnew and the else-arm of
+    `if err <= 1.0`), sliced out of the source and executed BIT-PRECISELY (z3 Float64 terms, NaN and infinities
+    included): with a NaN or +inf error norm the step is rejected and the next step size is finite, non-zero-signed
+    and at most 0.95 |h| -- for every finite h and every controller parameter in its documented range."""
+    from . import domains_fp as FP
+    t0 = time.time()
+    items = M.method_items("RADAU")
+    q = TB.Q()
+    failed = []
+    cex = []
+    samples = []
+    n_q = 0
+    for err_kind in ("nan", "inf"):
+        for first in (True, False):
+            for newt_iter in (1, 7):
+                dom = FP.Bits()
+                it = Interp(dom, items, {})
+                solve = it.fns["RADAU::solve"]
+                found = []
+                _find_stmt_list_with_if(solve[3], lambda c: c[0] == "bin" and c[1] == "<=" and c[2][0] == "path" and c[2][1] == ["err"], found)
+                if len(found) != 1:
+                    raise Unsupported(f"Radau: accept test `if err <= 1.0` not found exactly once ({len(found)})")
+                stmts, idx, ifn = found[0]
+                pre = stmts[idx - 3: idx]
+                core = [s_[1] if s_[0] == "expr" else s_ for s_ in pre]
+                names = [c_[2][1][0] if c_[0] == "assign" and c_[2][0] == "path" else None for c_ in core]
+                if names != ["fac", "quot", "hnew"]:
+                    raise Unsupported(f"Radau: the statements before the accept test are not fac/quot/hnew ({names})")
+                env = Env()
+                h = dom.sym("h")
+                err = dom.sym("err")
+                z = z3
+                lim = lambda v, lo, hi: z.And(z.fpGEQ(v, FP.fv(lo)), z.fpLEQ(v, FP.fv(hi)))
+                dom.add(z.And(z.Not(z.fpIsNaN(h)), z.Not(z.fpIsInf(h)), z.fpGEQ(z.fpAbs(h), FP.fv(1e-290)), z.fpLEQ(z.fpAbs(h), FP.fv(1e290))))
+                dom.add(z.fpIsNaN(err) if err_kind == "nan" else z.And(z.fpIsInf(err), z.fpGT(err, FP.fv(0.0))))
+                vals = {"h": h, "err": err, "first": first, "newt_iter": newt_iter, "max_newton": 7, "reject": False, "last": True, "call_decomp": False,
+                        "hhfac": dom.sym("hhfac"), "hnew": FP.fv(0.0), "quot": FP.fv(0.0), "fac": FP.fv(0.0),
+                        "steps": RStruct("Steps", {"total": 1, "accepted": 0, "rejected": 0})}
+                for nm, lo, hi in (("safety_factor", 0.5, 1.0), ("cfac", 0.5, 100.0), ("facr", 1e-3, 1.0), ("facl", 2.0, 1e3)):
+                    v = dom.sym(nm)
+                    dom.add(lim(v, lo, hi))
+                    vals[nm] = v
+                for k_, v in vals.items():
+                    env.declare(k_, v)
+                for s_ in pre:
+                    it.stmt(s_, env)
+                # the accept test itself must be false for a NaN / inf norm
+                cond = it.expr(ifn[1], env)
+                n_q += 1
+                r = dom.holds(z.Not(cond)) if not isinstance(cond, bool) else (not cond)
+                if r is not True:
+                    failed.append(f"Radau: a step whose error norm is {err_kind.upper()} passes the accept test `err <= 1.0`")
+                    continue
+                it.block(ifn[3], env) if ifn[3][0] == "block" else it.expr(ifn[3], env)
+                h2 = env.get("h")
+                facts = {"the next step size is finite": z.And(z.Not(z.fpIsNaN(h2)), z.Not(z.fpIsInf(h2))),
+                         "the next step size is at most 0.95 |h|": z.fpLEQ(z.fpAbs(h2), z.fpMul(FP.RNE, FP.fv(0.95), z.fpAbs(h))),
+                         "the next step keeps its direction": z.Or(z.And(z.fpGT(h, FP.fv(0.0)), z.fpGT(h2, FP.fv(0.0))), z.And(z.fpLT(h, FP.fv(0.0)), z.fpLT(h2, FP.fv(0.0))))}
+                for desc, f in facts.items():
+                    n_q += 1
+                    tq = time.time()
+                    r = dom.holds(f)
+                    q.solver_s += time.time() - tq
+                    if r is False:
+                        m = dom.model
+                        msg = f"Radau: after a rejected step with a {err_kind.upper()} error norm (first={first}): {desc} -- violated"
+                        if msg not in failed:
+                            failed.append(msg)
+                            cex.append(f"{msg}: h = {m.eval(h)}, next h = {m.eval(h2)}")
+                    elif r is None:
+                        q.unknown.append(f"{desc} ({err_kind}, first={first})")
+                if len(samples) < 2:
+                    samples.append({"err": err_kind, "first": first, "obligation": "rejected, next |h| <= 0.95|h|, finite, same direction"})
+    q.n = n_q
+    q.quantified = n_q
+    q.samples = samples
+    failed = list(dict.fromkeys(failed))
+    return _result("c04_radau_controller_nan", q, t0, failed,
+                   {"functions": ["RADAU::solve: fac/quot/hnew and the rejection arm of `if err <= 1.0` (AST slice, bit-precise)"],
+                    "bounds": "err in {NaN, +inf}; h any finite binary64 with 1e-290 <= |h| <= 1e290; safety_factor in [0.5,1], cfac in [0.5,100], facr in [1e-3,1], facl in [2,1e3]; first in {true,false}; newt_iter in {1,7}; powf by contract"},
+                   **_radau_nan_replay(failed, cex))
+
+
+def _radau_nan_replay(failed, cex=()):
+    if not failed:
+        return dict(replayed=None, replay_src="", replay_log="")
+    from . import replay
+    r = replay.radau_nan_replay()
+    return dict(replayed=r[0], replay_src=r[1], replay_log="\n".join(cex[:4]) + "\n" + r[2])
